@@ -42,11 +42,10 @@ def SMsg.fits (cfg : Cfg) (m : SMsg) : Prop :=
   exceeds cfg.chunk0 m.inter.length cfg.maxChunkCount = false ∧
   (m.abort = false → exceeds cfg.size0 m.body.length cfg.maxMessageSize = false)
 
-/-- guard of the partial theorem: the duplicate filter of `mergeChunks` skips
-    no chunk — the message is aborted, or has a single chunk, or its first
-    chunk is not numbered 0 and neighbouring chunks carry different numbers -/
+/-- the duplicate filter of `mergeChunks` skips no chunk: the message is
+    aborted, or neighbouring chunks carry different numbers -/
 def SMsg.noDrop (m : SMsg) : Prop :=
-  m.abort = true ∨ m.inter = [] ∨ seqChain 0 (m.chunks.map (·.seq))
+  m.abort = true ∨ adjDistinct (m.chunks.map (·.seq))
 
 instance (cfg : Cfg) (m : SMsg) : Decidable (m.fits cfg) := by unfold SMsg.fits; infer_instance
 instance (m : SMsg) : Decidable m.noDrop := by unfold SMsg.noDrop; infer_instance
@@ -104,10 +103,9 @@ theorem step1_good (cfg : Cfg) (m : SMsg) (hfit : m.fits cfg) (hg : m.noDrop)
       have hall : m.interChunks ++ [c] = m.chunks := by rw [hl]; rfl
       have hmerge : mergeChunks m.chunks = m.body := by
         apply mergeChunks_all
-        rcases hg with hg | hg | hg
+        rcases hg with hg | hg
         · rw [ha'] at hg; cases hg
-        · left; simp [SMsg.chunks, SMsg.interChunks, hg]
-        · right; exact hg
+        · exact hg
       have hlen : ¬ (exceeds cfg.size0 m.body.length cfg.maxMessageSize = true) := by
         rw [hfit.2 ha']; simp
       simp only [if_neg hA, if_neg hct, hall, hmerge, if_neg hlen, SMsg.expected, ha', hc]
@@ -277,17 +275,69 @@ theorem seqChain_of_nodup {prev : Nat} {l : List Nat} (h : (prev :: l).Nodup) : 
     rw [he]
     exact List.mem_cons_self ..
 
-/-- if the numbers of a stream are pairwise different and none is 0, the guard
-    holds for every message whose chunks are a sub-stream of it -/
+theorem adjDistinct_of_nodup {l : List Nat} (h : l.Nodup) : adjDistinct l := by
+  cases l with
+  | nil => trivial
+  | cons a r => exact seqChain_of_nodup h
+
+/-- if the numbers of a stream are pairwise different, no chunk of a message
+    whose chunks are a sub-stream of it is skipped -/
 theorem noDrop_of_nodup (m : SMsg) (stream : List Chunk)
     (hsub : stream.filter (fun c => c.req == m.req) = m.chunks)
-    (hnd : (stream.map (·.seq)).Nodup) (h0 : 0 ∉ stream.map (·.seq)) : m.noDrop := by
-  right; right
-  apply seqChain_of_nodup
+    (hnd : (stream.map (·.seq)).Nodup) : m.noDrop := by
+  right
+  apply adjDistinct_of_nodup
   have hsl : List.Sublist (m.chunks.map (·.seq)) (stream.map (·.seq)) := by
     rw [← hsub]
     exact List.Sublist.map _ List.filter_sublist
-  rw [List.nodup_cons]
-  exact ⟨fun h => h0 (hsl.subset h), hnd.sublist hsl⟩
+  exact hnd.sublist hsl
+
+/-! ### a conforming numbering does not repeat a number within a full cycle -/
+
+theorem numbered_tail {a : Nat} {l : List Nat} (h : Numbered (a :: l)) : Numbered l := by
+  cases l with
+  | nil => trivial
+  | cons b r => exact h.2.2
+
+/-- after `k+1` steps from `a` the number is `a+k+1`, or a wrap-around lies in
+    between — which costs at least `4294966272 - a + b - 1022` steps -/
+theorem numbered_reach {a : Nat} {l : List Nat} (h : Numbered (a :: l)) :
+    ∀ (k b : Nat), l[k]? = some b → b = a + (k + 1) ∨ (k + 1) + a + 1022 ≥ 4294966272 + b := by
+  induction l generalizing a with
+  | nil => intro k b hb; simp at hb
+  | cons a' r ih =>
+    intro k b hb
+    obtain ⟨_, hn, hr⟩ := h
+    cases k with
+    | zero =>
+      simp at hb
+      subst hb
+      rcases hn with ⟨h1, _⟩ | ⟨h1, h2⟩
+      · left; omega
+      · right; omega
+    | succ k =>
+      have hb' : r[k]? = some b := by simpa using hb
+      have := ih hr k b hb'
+      rcases hn with ⟨h1, _⟩ | ⟨h1, h2⟩
+      · rcases this with t | t
+        · left; omega
+        · right; omega
+      · rcases this with t | t
+        · right; omega
+        · right; omega
+
+/-- so a conforming numbering of fewer than 4294965250 chunks never repeats a number -/
+theorem numbered_nodup {l : List Nat} (h : Numbered l) (hlen : l.length ≤ 4294965249) : l.Nodup := by
+  induction l with
+  | nil => exact List.nodup_nil
+  | cons a r ih =>
+    rw [List.nodup_cons]
+    refine ⟨?_, ih (numbered_tail h) (by simp at hlen; omega)⟩
+    intro hm
+    obtain ⟨k, hk, hget⟩ := List.mem_iff_getElem.mp hm
+    have hq : r[k]? = some a := by rw [List.getElem?_eq_getElem hk, hget]
+    have := numbered_reach h k a hq
+    simp at hlen
+    rcases this with t | t <;> omega
 
 end Opcua.Recv.Spec
